@@ -62,6 +62,10 @@ def generated_configs(n, seed):
                 # two index markets over overlapping components, one arbitrageur with access to both
                 cfg["IDX"]["markets"] = names[:2]
                 cfg["IDX2"] = {"class": "IndexMarket", "tickSize": 0.01, "marketPrice": 318.0, "markets": names[1:]}
+                if i % 6 == 2:
+                    cfg["IDX"]["markets"] = list(names)                  # three components: their order is the configured one
+                cfg["IDX"]["requires"] = list(reversed(cfg["IDX"]["markets"]))       # the legacy key (ignored with a warning)
+                cfg["IDX2"]["requires"] = list(cfg["IDX2"]["markets"])
                 cfg["simulation"]["markets"].append("IDX2")
                 allm.append("IDX2")
             cfg["ARB"] = {"class": "ArbitrageAgent", "numAgents": 3, "markets": list(allm), "assetVolume": [40, 60], "cashAmount": 150000,
